@@ -1,9 +1,11 @@
 (* C08 -- a molecule written as a V2000 connection table is read as the same atoms, charges,
    radicals, isotope masses, bonds and bond types as its V3000 rendering.  This file states the
    V2000 half: for every abstract molecule M (okM2000: <= 999 atoms and bonds, symbols of the
-   element table incl. D/T, coordinate fields of width 10, bond endpoints in range, no repeated
+   element table incl. D/T, coordinate fields of width 10, bond endpoints in range and different
+   from each other -- the reader rejects a bond from an atom to itself --, no repeated
    ordered endpoint pair) and every spec-conformant V2000 rendering of it -- all choices the
-   format leaves open are collected in [ch : choices], their side conditions in okch2000 --
+   format leaves open are collected in [ch : choices], their side conditions in okch2000
+   (ok_item: no negative value on an M  RAD / M  ISO line, which the reader rejects) --
    the executable model of io/molfile_v2000_reader.py returns exactly [expected2000 M]:
    atom i with r_idx = i, symbol / atomic number / charge / mass / radical as stated (D, T -> H with
    mass 2, 3), and bonds (u-1, v-1, type).  The composition with the V3000 half
@@ -152,7 +154,8 @@ Proof. exact v2000_v3000_agree. Qed.
 Print Assumptions C08_v2000_v3000_agree.
 
 (* ---- 5. non-vacuity ---- *)
-(* every molecule whose values fit three columns has a rendering satisfying the hypotheses *)
+(* every molecule whose values fit three columns (bounded; radical and mass not negative: a negative
+   one cannot be written in a file the reader accepts) has a rendering satisfying the hypotheses *)
 Theorem C08_every_molecule_has_a_rendering : forall M : mol2, okM2000 M -> bounded M ->
   exists ch, okch2000 M ch /\ read_v2000 (render2000 M ch) = ok (expected2000 M).
 Proof. exact every_molecule_has_a_rendering. Qed.
